@@ -488,7 +488,14 @@ def rule_view_copies(ctx: Ctx, rep: Report) -> None:
     rep.floor(rule, 2)
 
 
+def rule_own_fields(ctx: Ctx, rep: Report) -> None:
+    """C09.own_fields: an object hands its own fields to the functions it delegates to (see sigcommon.rule_own_fields_forwarded)."""
+    from rules.sigcommon import rule_own_fields_forwarded
+    rule_own_fields_forwarded(ctx, rep, "C09.own_fields", ('btclib.psbt.psbt_view',), 8)
+
+
 RULES = [
+    ("C09.own_fields", rule_own_fields),
     ("C09.bip341", rule_bip341),
     ("C09.bip143", rule_bip143),
     ("C09.helpers", rule_helpers),
